@@ -1,0 +1,95 @@
+//go:build verif
+
+// Verification hooks (build tag verif) for property C07: marshal / unmarshal of the stored per-column statistics
+// (pre-aggregation blocks of the column meta) for statistics given field by field. No behaviour of its own.
+package immutable
+
+import (
+	"fmt"
+	"math"
+)
+
+// Kinds of statistics blocks.
+const (
+	VerifPreAggInt = iota
+	VerifPreAggFloat
+	VerifPreAggBool
+	VerifPreAggString
+	VerifPreAggTime
+)
+
+// VerifPreAggMarshal builds the statistics block of the given kind from f = [min, max, minTime, maxTime, sum, count]
+// (64-bit patterns; float64 bits for float min/max/sum; bool min/max in the low byte; string and time use count only)
+// and returns the bytes the real marshal appends after the bytes in prefix (the real callers append to a buffer that
+// already holds the column meta written so far).
+func VerifPreAggMarshal(kind int, f [6]uint64, prefix []byte) ([]byte, error) {
+	var b PreAggBuilder
+	switch kind {
+	case VerifPreAggInt:
+		m := NewIntegerPreAgg()
+		m.values[minIndex], m.values[maxIndex] = int64(f[0]), int64(f[1])
+		m.values[minTIndex], m.values[maxTIndex] = int64(f[2]), int64(f[3])
+		m.values[sumIndex], m.values[countIndex] = int64(f[4]), int64(f[5])
+		b = m
+	case VerifPreAggFloat:
+		b = &FloatPreAgg{minV: math.Float64frombits(f[0]), maxV: math.Float64frombits(f[1]), minTime: int64(f[2]), maxTime: int64(f[3]),
+			sumV: math.Float64frombits(f[4]), countV: int64(f[5])}
+	case VerifPreAggBool:
+		b = &BooleanPreAgg{minV: int8(f[0]), maxV: int8(f[1]), minTime: int64(f[2]), maxTime: int64(f[3]), counts: int64(f[5])}
+	case VerifPreAggString:
+		b = &StringPreAgg{counts: int64(f[5])}
+	case VerifPreAggTime:
+		b = &TimePreAgg{countV: uint32(f[5])}
+	default:
+		return nil, fmt.Errorf("kind %d", kind)
+	}
+	dst := append([]byte{}, prefix...)
+	dst = b.marshal(dst)
+	return dst[len(prefix):], nil
+}
+
+// VerifPreAggUnmarshal decodes a statistics block with the real unmarshal of the given kind into a builder that held
+// other statistics before (as pooled builders do) and returns its fields in the order of VerifPreAggMarshal and the
+// number of bytes the decoder left unread.
+func VerifPreAggUnmarshal(kind int, src []byte) (f [6]uint64, rest int, err error) {
+	var r []byte
+	switch kind {
+	case VerifPreAggInt:
+		m := NewIntegerPreAgg()
+		for i := range m.values {
+			m.values[i] = 0x5a5a5a5a5a5a5a5a
+		}
+		if r, err = m.unmarshal(src); err != nil {
+			return
+		}
+		f = [6]uint64{uint64(m.values[minIndex]), uint64(m.values[maxIndex]), uint64(m.values[minTIndex]), uint64(m.values[maxTIndex]),
+			uint64(m.values[sumIndex]), uint64(m.values[countIndex])}
+	case VerifPreAggFloat:
+		m := &FloatPreAgg{minV: 7.5, maxV: 7.5, minTime: 75, maxTime: 75, sumV: 7.5, countV: 75}
+		if r, err = m.unmarshal(src); err != nil {
+			return
+		}
+		f = [6]uint64{math.Float64bits(m.minV), math.Float64bits(m.maxV), uint64(m.minTime), uint64(m.maxTime), math.Float64bits(m.sumV), uint64(m.countV)}
+	case VerifPreAggBool:
+		m := &BooleanPreAgg{minV: 7, maxV: 7, minTime: 75, maxTime: 75, counts: 75}
+		if r, err = m.unmarshal(src); err != nil {
+			return
+		}
+		f = [6]uint64{uint64(uint8(m.minV)), uint64(uint8(m.maxV)), uint64(m.minTime), uint64(m.maxTime), 0, uint64(m.counts)}
+	case VerifPreAggString:
+		m := &StringPreAgg{counts: 75}
+		if r, err = m.unmarshal(src); err != nil {
+			return
+		}
+		f[5] = uint64(m.counts)
+	case VerifPreAggTime:
+		m := &TimePreAgg{countV: 75}
+		if r, err = m.unmarshal(src); err != nil {
+			return
+		}
+		f[5] = uint64(m.countV)
+	default:
+		err = fmt.Errorf("kind %d", kind)
+	}
+	return f, len(r), err
+}
